@@ -137,9 +137,9 @@ PROP = Prop(
           "FPR(t) == FNR(t) == 0. Non-trivial = 0<e<1 or easy samples present (crossing); e == 0 "
           "(zero clause)."),
     clauses=[
-        Clause("crossing", check_crossing, strategy=_tiefree(12), quick=100, thorough=500,
+        Clause("crossing", check_crossing, strategy=lambda tier: _tiefree(12 if tier == "quick" else 40), quick=100, thorough=2000,
                quick_shards=6, min_nontrivial=100, doc="defining relation, cap, equivariance"),
-        Clause("zero", check_zero, strategy=_any_scores(), quick=250, thorough=1200, quick_shards=2,
+        Clause("zero", check_zero, strategy=_any_scores(), quick=250, thorough=4800, quick_shards=2,
                min_nontrivial=50, doc="reported EER 0 comes with an error-free threshold"),
     ],
     assumptions=["'moderate magnitude': |score| <= ~2e6; tie-free inputs have separation >= 1e-3"],
